@@ -452,6 +452,10 @@ impl From<HitObjectsState> for HitObjects {
 
         for h in hit_objects.iter_mut() {
             if let HitObjectKind::Slider(ref mut slider) = h.kind {
+                // The path was created with the mode known when its line was
+                // parsed; `[General]` may come after `[HitObjects]`.
+                slider.path.set_mode(timing_points.mode);
+
                 let beat_len = timing_points
                     .control_points
                     .timing_point_at(h.start_time)
